@@ -1,11 +1,11 @@
-\* advertising part, two topics, reference counts up to 2 (5 296 states); bin/lib/props/x06.py generates this and the other configurations
+\* Publish with readiness / Bootstrap, one caller (2 280 states)
 SPECIFICATION Spec
 CONSTANTS
-  Topics = {"t1", "t2"}
-  MaxRef = 2
+  Topics = {"t1"}
+  MaxRef = 1
   QCap = 2
   Callers = {"b1"}
-  Parts = {"adv"}
+  Parts = {"boot"}
   DevStopIgnoresRelay = FALSE
   DevNoCancel = FALSE
   DevNoAdvGuard = FALSE
@@ -23,6 +23,7 @@ INVARIANT P_X06_b
 INVARIANT P_X06_c1
 INVARIANT P_X06_c2
 INVARIANT P_X06_e1
-PROPERTY P_X06_a_exit
+PROPERTY P_X06_e2
 PROPERTY P_X06_h
+PROPERTY P_X06_c3b
 CHECK_DEADLOCK FALSE
